@@ -1,5 +1,5 @@
 """C API kernels (C15, C01)."""
-from vxlib import Inst, CORE_TUS, FMT_STUBS, CTX_STUBS, CONTAINER_STUBS
+from vxlib import Inst, CORE_TUS, FMT_STUBS, CTX_STUBS, CONTAINER_STUBS, EMPTY_DECL_UNWIND
 
 KN = {"n": "K_NOTYPE", "b": "K_BOOLEAN", "i": "K_INTEGER", "d": "K_NUMERIC", "s": "K_LITERAL", "t": "K_TABCHAR", "c": "K_IMAGINARY"}
 TUS = CORE_TUS + ["blocc/bloc_capi.cpp"]
@@ -21,4 +21,7 @@ def instances():
                     stubs=FMT_STUBS + CTX_STUBS + [x for x in CONTAINER_STUBS if "Complex" in x], unwind=4, unwindset=EMPTY_DECL_UNWIND, timeout=600, bounds="table and tuple of 2 items", inputs="index (all of unsigned)"))
     out.append(Inst(id="capi.evaluate", props=["C15", "C01"], harness="h_capi.cpp", entry="c15_evaluate", tus=TUS, defs=["VX_VK=K_INTEGER"],
                     stubs=FMT_STUBS + CTX_STUBS + CONTAINER_STUBS, unwind=4, unwindset=EMPTY_DECL_UNWIND, timeout=600, bounds="one expression node", inputs="whether evaluation raises, value"))
+    out.append(Inst(id="c01.accessors", props=["C01", "C15"], harness="h_accessors.cpp", entry="c01_accessors", tus=CORE_TUS,
+                    stubs=FMT_STUBS + CTX_STUBS + CONTAINER_STUBS, unwind=3, unwindset=EMPTY_DECL_UNWIND, timeout=300,
+                    bounds="a value of any major type (10), 0..3 dimensions, any tuple / module id; null, or an integer payload", inputs="major type, dimensions, minor id, payload"))
     return out
